@@ -491,6 +491,16 @@ impl Compiler {
         // Compile update with special handling for loop variables:
         // Instead of modifying the scope's bindings (which closures captured),
         // we evaluate the update and store results to registers for the next iteration.
+        // The body may have modified the loop variables: the next iteration (and the update)
+        // continue from the values this iteration's bindings hold now
+        for (name, reg) in &var_regs {
+            let name_idx = self.builder.add_string(name.cheap_clone())?;
+            self.builder.emit(Op::GetVar {
+                dst: *reg,
+                name: name_idx,
+            });
+        }
+
         if let Some(update) = &for_stmt.update {
             // Enable loop variable redirection: any assignment to loop vars
             // will be redirected to their corresponding registers
@@ -502,16 +512,6 @@ impl Compiler {
 
             // Disable redirection
             self.clear_loop_var_redirects();
-        } else {
-            // No update expression, but body may have modified loop variables.
-            // Copy current scope values back to registers for next iteration.
-            for (name, reg) in &var_regs {
-                let name_idx = self.builder.add_string(name.cheap_clone())?;
-                self.builder.emit(Op::GetVar {
-                    dst: *reg,
-                    name: name_idx,
-                });
-            }
         }
 
         // Pop per-iteration scope
